@@ -93,15 +93,18 @@ def model_check(w, n, invariants, properties=(), workers=8, timeout=900):
     return r
 
 
-def replay(behs, *, variants=None, timeout=900, features=()):
-    """Run behaviours on the real crate; returns the harness report."""
+def replay(behs, *, variants=None, timeout=900, features=(), pass_dump=None):
+    """Run behaviours on the real crate; returns the harness report.
+    pass_dump: file that receives the reloader's bookkeeping hook events (for Trace_Pass.tla)."""
     path = os.path.join(vlib.WORK, f"behs-{os.getpid()}.ndjson")
     with open(path, "w") as f:
         for b in behs:
             f.write(json.dumps(b) + "\n")
     args = ["cache-replay", path]
-    if variants:
-        args.append(",".join(variants))
+    if variants or pass_dump:
+        args.append(",".join(variants) if variants else "-")
+    if pass_dump:
+        args.append(pass_dump)
     try:
         p = vlib.run_bin("amv", args, timeout=timeout, features=features)
     finally:
@@ -137,8 +140,25 @@ def run_suite(ctx, suite, *, classify=None, nontrivial=None, variants=None, feat
         ctx.add_tlc(f"Gen {w}: behaviours of length {n}" + (f" (simulate num={sim}, seed {ctx.seed})" if sim else " (exhaustive)"), r)
         if not behs:
             raise vlib.ToolError(f"generator {w} produced no behaviour")
-        rep = replay(behs, variants=variants, features=features)
+        hot = WORLDS[w]["hasr"] and vlib.hooks_present()
+        dump = os.path.join(vlib.WORK, f"pass-{w}-{os.getpid()}.ndjson") if hot else None
+        rep = replay(behs, variants=variants, features=features, pass_dump=dump)
         total += len(behs)
+        if dump and os.path.exists(dump):
+            # code -> spec: the reloader's own bookkeeping events against DepsGraph.tla
+            verdict, tr, detail = vlib.trace_check("Trace_Pass", "Trace_Pass.cfg", dump, name=f"pass-{w}", timeout=1200, xmx="6g")
+            if verdict == "error":
+                raise vlib.ToolError(f"Trace_Pass validation failed to run: {detail}")
+            nev = rep["extra"].get("pass_events", 0)
+            ctx.cov["reloader_events_validated"] = ctx.cov.get("reloader_events_validated", 0) + (nev if verdict == "accepted" else 0)
+            if verdict != "accepted":
+                keep = dump + ".rejected"
+                os.replace(dump, keep)
+                ctx.violation(f"{ctx.prop}/{w}:reloader-bookkeeping",
+                              f"the reloader's Graph/Event/Pass/ReloadTry events are not explained by DepsGraph.tla ({verdict}: {detail[:300]})",
+                              {"trace_file": keep, "tlc": detail})
+            else:
+                os.remove(dump)
         for b in behs:
             ctx.case(b, nontrivial=(nontrivial(b) if nontrivial else True))
         ctx.sample({"world": w, "behaviour": [s["step"] for s in behs[len(behs) // 2][1:]]})
